@@ -525,9 +525,22 @@ def cmd_check(prop, tier, base_seed, workers, runs_override=None, wall_cap=None,
                       f"falling back to the full trace", file=sys.stderr)
                 write_replay(spec, rec, base, path)
                 if not confirm_fresh(prop, path, v["violation"]["kind"]):
-                    print(f"HARNESS-ERROR property={prop}: full trace does not reproduce in a fresh process",
-                          file=sys.stderr)
-                    return 2
+                    # reproduces inside this process tree but not in a fresh interpreter: depends on process state
+                    # outside the seams (object addresses, allocator).  Reported with the recorded trace, flagged.
+                    with open(path) as f:
+                        doc = json.load(f)
+                    doc["reproducible"] = False
+                    doc["note"] = ("recorded trace; it reproduced when replayed in a forked child of the checking process "
+                                   "but not in a fresh interpreter - the behaviour depends on process state outside the "
+                                   "simulator's seams (e.g. id() reuse)")
+                    with open(path, "w") as f:
+                        json.dump(doc, f, indent=1, default=core._json_default)
+                    print(f"NONREPRODUCIBLE property={prop}: kind={v['violation']['kind']} does not reproduce in a fresh "
+                          f"process; reporting the recorded trace", file=sys.stderr)
+                    alarms.append({"kind": v["violation"]["kind"], "count": len(vs), "replay": path,
+                                   "detail": v["violation"]["detail"][:400], "steps_before": len(rec["steps"]),
+                                   "steps_after": len(rec["steps"]), "shrink": {"mode": "none (not reproducible)"}})
+                    continue
             alarms.append({"kind": v["violation"]["kind"], "count": len(vs), "replay": path,
                            "detail": res.violation["detail"][:400] if res.violation else "",
                            "steps_before": len(rec["steps"]), "steps_after": len(small["steps"]), "shrink": stats})
